@@ -32,7 +32,7 @@ class B:
     # ---------------------------------------------------------------- plumbing
     def conn(self, kind):
         self.conns.append({"kind": kind})
-        self.busy[len(self.conns) - 1] = 0
+        self.busy[len(self.conns) - 1] = -10000
         self.sent[len(self.conns) - 1] = 0
         return len(self.conns) - 1
 
